@@ -93,7 +93,8 @@ impl Shape {
         if self.aux_degs[j] == 1 {
             cur + r * m
         } else {
-            cur * (m + r)
+            // running product of (m + r)^(degree - 1): a constraint of the declared degree
+            cur * (m + r).exp(((self.aux_degs[j] - 1) as u32).into())
         }
     }
     /// the auxiliary columns that follow from the main columns and the random elements (the Lagrange kernel column last)
@@ -336,7 +337,7 @@ impl<B: SField> Air for ShapeAir<B> {
             let r = s.rand_of(j, aux_rand_elements);
             let cur = aux_frame.current()[j];
             let next = aux_frame.next()[j];
-            result[j] = if s.aux_degs[j] == 1 { next - (cur + r * m) } else { next - cur * (m + r) };
+            result[j] = if s.aux_degs[j] == 1 { next - (cur + r * m) } else { next - cur * (m + r).exp(((s.aux_degs[j] - 1) as u32).into()) };
         }
     }
 
